@@ -48,12 +48,12 @@ CHECKS = {
         ref='§4 C07'),
     'C08': dict(
         text='Theorems for every heap, root and mode: every reported (value, path) satisfies follow_path; the un-memoized traversal reports exactly the valid paths, none twice; the memoized traversal reports every reachable mutable object exactly once; the all-paths query returns exactly the reaching paths without duplicates. Hypotheses WellFormed / PathsDistinct are decidable and enforced by the driver on every request. Correspondence of the (value, path) streams of iterate (3 modes), collect_paths_by_id, get_all_paths on random structures.',
-        note=TB + 'Partial: identity rebuild (map_children), legacy traversals and the cycle error of iterate are decided by the oracle only.',
+        note=TB + 'Also proved and tied: the identity rebuild (map_children) yields the same types, path-for-path equal values and the same sharing (Model/Rebuild). Partial: legacy traversals and the cycle error of iterate are decided by the oracle only.',
         technique='Lean 4 proof over a hand-written executable model, tied to /repo on every run by differential correspondence (compiled Lean driver vs real code on generated inputs) and regenerated source tables; independent Python oracle searches for failing inputs',
         ref='§4 C08'),
     'C09': dict(
         text='Theorems: the bytes codec round-trips EVERY byte string; every symbol resolved while loading any document was approved by the policy; a denied reference raises. Correspondence of codec and policy gate with the real traverser / import_symbol; oracle: full round trip (types, leaves, callables, tags, sharing), second dump stable, strict JSON, no invocation, tampered documents.',
-        note=TB + 'Partial: the structural encoding is validated by correspondence + real round trip; json.dumps/loads trusted. One open finding (NaN/Infinity tokens).',
+        note=TB + 'Structure: the objects table of a document is the memoized post-order rebuild of the configuration (C09_dump_is_faithful) and loading recreates it exactly (C09_load_of_dump); the real document text is read by an independent reader and compared with the table the model computes. Partial: sets, custom node types and the metadata encoding are outside the reader; json.dumps/loads trusted. One open finding (NaN/Infinity tokens).',
         technique='Lean 4 proof over a hand-written executable model, tied to /repo on every run by differential correspondence (compiled Lean driver vs real code on generated inputs) and regenerated source tables; independent Python oracle searches for failing inputs',
         ref='§4 C09'),
     'C10': dict(
@@ -78,7 +78,7 @@ CHECKS = {
         ref='§4 C13'),
     'C14': dict(
         text='Theorems: after set_tagged every selected argument of every reachable Buildable holds the value, no other argument, no tag/callable/signature anywhere and no unreachable object changed; list_tags is exactly the union of reachable tag sets; add_tag/remove_tag/clear_tags touch exactly their tag. Correspondence: tag edit histories vs ArgStore model; on DAGs set_tagged, tag-selection replace and list_tags vs the heap model (Buildables still reachable afterwards).',
-        note=TB + 'Partial: survival of tags under copy/cast/serialization/diff and TaggedValue build are decided by the oracle (their machinery belongs to C07/C09/C10).',
+        note=TB + 'Tags survive deep/shallow copies and diff application (theorems through the C07/C10 models). Partial: survival under serialization and TaggedValue build are decided by the oracle.',
         technique='Lean 4 proof over a hand-written executable model, tied to /repo on every run by differential correspondence (compiled Lean driver vs real code on generated inputs) and regenerated source tables; independent Python oracle searches for failing inputs',
         ref='§4 C14'),
     'C15': dict(
@@ -107,8 +107,8 @@ CHECKS = {
         technique='Lean 4 proof over a hand-written executable model, tied to /repo on every run by differential correspondence (compiled Lean driver vs real code on generated inputs) and regenerated source tables; independent Python oracle searches for failing inputs',
         ref='§4 C19'),
     'C20': dict(
-        text='Theorems for materialize_defaults on one Buildable (every signature and store): configured arguments and tags untouched; only own defaults of value-less parameters are added; every parameter receives the same value as before; every named default is set afterwards; a second run adds nothing for named parameters. Correspondence: flat stage vs the ArgStore model; the other transformations by before/after builds of the real code (metamorphic oracle), ==, serializability, input unchanged.',
-        note=TB + 'Partial: idempotence with positional-only defaults and all transformations other than materialize_defaults are oracle-only. One open finding (trim-mutable-default).',
+        text='Theorems for materialize_defaults on one Buildable (every signature and store): configured arguments and tags untouched; only own defaults of value-less parameters are added; every parameter receives the same value as before; every named default is set afterwards; a second run changes nothing at all (C20_idempotent, every signature). Correspondence: flat stage vs the ArgStore model; the other transformations by before/after builds of the real code (metamorphic oracle), ==, serializability, input unchanged.',
+        note=TB + 'Partial: all transformations other than materialize_defaults are oracle-only. One open finding (trim-mutable-default).',
         technique='Lean 4 proof over a hand-written executable model, tied to /repo on every run by differential correspondence (compiled Lean driver vs real code on generated inputs) and regenerated source tables; independent Python oracle searches for failing inputs',
         ref='§4 C20'),
 }
